@@ -364,3 +364,35 @@ def s4(prog):
                          "msg": "uprefs::uprefs enters %s names first with a %s insertion, so an inherited up-reference wins over a name bound in the enclosing scope: a binder inside a block no longer shadows an outer (e.g. builtin) name for nested blocks" % (order[0], "keep-first" if keep_first else "overwriting"),
                          "detail": None})
     return inst, findings
+
+
+def s5(prog):
+    """an up-reference inherited by a nested block starts unused: upref::from builds a fresh upref, it does not copy the
+    enclosing block's id/used flag (ids are numbered per block)"""
+    inst, findings = [], []
+    f = prog.func_opt("upref::from")
+    if f is None:
+        raise Broken("anchor upref::from vanished")
+    rets = [x for x in walk(f["body"]) if x.get("k") == "return"]
+    if len(rets) != 1:
+        raise Broken("upref::from has an unmodelled shape")
+    e = rets[0]["e"]
+    # peel elidable copies of the temporary; the innermost constructor tells how the result is built
+    cur = e
+    chain = []
+    while isinstance(cur, dict) and cur.get("k") == "ctor" and cur.get("c") == "upref":
+        chain.append(cur)
+        if len(cur["a"]) == 1 and isinstance(cur["a"][0], dict) and cur["a"][0].get("k") == "ctor" and cur["a"][0].get("c") == "upref":
+            cur = cur["a"][0]
+        else:
+            break
+    inner = chain[-1] if chain else None
+    pid = f["params"][0]["id"]
+    copies_arg = bool(inner) and inner.get("cm") and len(inner["a"]) == 1 and isinstance(unwrap(inner["a"][0]), dict) and \
+        unwrap(inner["a"][0]).get("k") == "ref" and unwrap(inner["a"][0]).get("id") == pid
+    inst.append(("S5:upref::from", {"built_by": inner.get("fid") if inner else short(e)[:60], "copies_argument": bool(copies_arg)}))
+    if copies_arg:
+        findings.append({"key": "S5:upref::from", "where": rets[0]["l"],
+                         "msg": "upref::from returns a copy of the enclosing block's upref, including its used flag and its up-value id: ids are numbered per block, so a nested block's fresh ids collide with inherited ones and a read yields another binding's value",
+                         "detail": None})
+    return inst, findings
